@@ -170,9 +170,10 @@ func (t *tlc) StrutLayoutsCache() map[text.StrutLayoutKey][2]pr.Float    { retur
 
 // ---- executing ops
 
-// entryOpBudget: steps one direct parser call may take (the largest corpus text, a whole
-// stylesheet through tree.NewCSSDefault, takes about a million).
-const entryOpBudget = 50000000
+// entryOpBudget: steps one direct parser call may take. The largest corpus text takes 17 000
+// (evidence: entry_op_max_steps); the bound is low because a loop that makes one step
+// per iteration may still do quadratic work (a string growing at every turn).
+const entryOpBudget = 200000
 
 type runner struct {
 	spec *Spec
@@ -292,7 +293,7 @@ func (rn *runner) do(op Op, res *OpResult) {
 			input = utils.InputString(string(sc.main))
 			base = mainURL
 		case "reader":
-			rd := &simReader{data: sc.main, failAt: -1, chunked: op.Chunk != 0, rng: simrt.SplitMix(op.Chunk), eofData: op.Chunk&2 != 0}
+			rd := &simReader{data: sc.main, failAt: -1, chunked: op.Chunk != 0, rng: simrt.SplitMix(op.Chunk), eofData: op.Chunk&2 != 0 || (op.Chunk == 0 && simrt.HashString(op.Scenario)&1 == 1)}
 			for _, f := range rn.sm.faults {
 				if f.At != "main" || (f.Op != "" && f.Op != op.ID) {
 					continue
